@@ -363,6 +363,24 @@ func siteOf(st ast.Stmt, isCand func(*ast.CallExpr) bool) (*ast.CallExpr, string
 		} else {
 			exprs, kind = []ast.Expr{s.Cond}, "ifcond"
 		}
+	case *ast.SwitchStmt:
+		// switch f(x) { ... } / switch v := f(x); v { ... }: the tag (or the init) is evaluated first, once
+		if s.Init != nil {
+			as, ok := s.Init.(*ast.AssignStmt)
+			if !ok || (as.Tok != token.DEFINE && as.Tok != token.ASSIGN) {
+				return nil, ""
+			}
+			for _, l := range as.Lhs {
+				if !pureOperand(l) {
+					return nil, ""
+				}
+			}
+			exprs, kind = as.Rhs, "switchinit"
+		} else if s.Tag != nil {
+			exprs, kind = []ast.Expr{s.Tag}, "switchtag"
+		} else {
+			return nil, ""
+		}
 	case *ast.SendStmt:
 		if !pureOperand(s.Chan) {
 			return nil, ""
@@ -809,6 +827,10 @@ func expandSite(fset *token.FileSet, pk *packages.Package, tf *token.File, src [
 		case *ast.ReturnStmt:
 			whole = len(x.Results) == 1 && ast.Unparen(x.Results[0]) == ast.Expr(s.call)
 		case *ast.IfStmt:
+			if as, ok := x.Init.(*ast.AssignStmt); ok {
+				whole = len(as.Rhs) == 1 && ast.Unparen(as.Rhs[0]) == ast.Expr(s.call)
+			}
+		case *ast.SwitchStmt:
 			if as, ok := x.Init.(*ast.AssignStmt); ok {
 				whole = len(as.Rhs) == 1 && ast.Unparen(as.Rhs[0]) == ast.Expr(s.call)
 			}
